@@ -3,3 +3,22 @@ open ZCV.Props.C19
 #print axioms C19_all_closed
 #print axioms C19_open_close_count
 #print axioms C19_no_fault_ok
+#print axioms C19_all_closed2
+#print axioms C19_all_closed2_io
+#print axioms C19_stream_closed_before_parse
+#print axioms C19_stream_closed_at_once
+#print axioms C19_active_restored
+#print axioms C19_state_only_grows
+#print axioms C19_schema_load_keeps_comps
+#print axioms C19_state_restored_partial
+#print axioms C19_later_load_unaffected_partial
+#print axioms C19_failed_import_restores
+#print axioms C19_marks_justified
+#print axioms C19_failed_load_restores_partial
+#print axioms C19_failed_load_restores_fails_after_successful_import
+#print axioms C19_ok_config_load_marks_imports
+#print axioms C19_ok_schema_load_cached
+#print axioms C19_cache_irrelevant_to_outcome_partial
+#print axioms C19_cache_relevant_with_faults
+#print axioms C19_cache_relevant_without_faults
+#print axioms C19_no_fault_ok2
